@@ -62,6 +62,24 @@ Check quadratic_backward_error : forall (eps : R) (O : RoundOps) (a b c : C),
         ((a + da) * x * x + (b + db) * x + (c + dc))%C = RtoC 0.
 Print Assumptions quadratic_backward_error.
 
+(* degree 2, BOTH returned values at once: they are the two roots of a x^2 + (b + db) x + (c + dc) (a unperturbed) with
+   |dc| <= (2 eps + eps^2) |c| and |db| <= 16 eps sqrt(|b|^2 + 4|a||c|) -- normwise in the scaling of the quadratic; a bound
+   relative to |b| alone is not attainable (quadratic_componentwise_simultaneous_refuted_example below) *)
+Theorem quadratic_simultaneous_backward_error : forall (eps : R) (O : RoundOps) (a b c : C),
+  (0 <= eps <= / 100)%R -> std_model eps O -> a <> RtoC 0 ->
+  exists r0 r1 db dc : C, poly_solve (RoundRAo eps O) [c; b; a] false = Ok ([r0; r1], []) /\
+    (forall x : C, (a * x * x + (b + db) * x + (c + dc))%C = (a * (x - r0) * (x - r1))%C) /\
+    (Cmod dc <= (2 * eps + eps * eps) * Cmod c)%R /\
+    (Cmod db * Cmod db <= (16 * eps) * (16 * eps) * (Cmod b * Cmod b + 4 * (Cmod a * Cmod c)))%R.
+Proof. intros eps O a b c. exact (quadratic_simultaneous_backward_lemma eps O a b c). Qed.
+Check quadratic_simultaneous_backward_error : forall (eps : R) (O : RoundOps) (a b c : C),
+  (0 <= eps <= / 100)%R -> std_model eps O -> a <> RtoC 0 ->
+  exists r0 r1 db dc : C, poly_solve (RoundRAo eps O) [c; b; a] false = Ok ([r0; r1], []) /\
+    (forall x : C, (a * x * x + (b + db) * x + (c + dc))%C = (a * (x - r0) * (x - r1))%C) /\
+    (Cmod dc <= (2 * eps + eps * eps) * Cmod c)%R /\
+    (Cmod db * Cmod db <= (16 * eps) * (16 * eps) * (Cmod b * Cmod b + 4 * (Cmod a * Cmod c)))%R.
+Print Assumptions quadratic_simultaneous_backward_error.
+
 (* degree 2, in the measure of the failing-input search of driver/c10.py: |p(x)| / (max |a_k| max(1,|x|)^2) <= 48 eps *)
 Theorem quadratic_search_measure_bound : forall (eps : R) (O : RoundOps) (a b c : C) (M : R),
   (0 <= eps <= / 100)%R -> std_model eps O -> a <> RtoC 0 -> (Cmod a <= M)%R -> (Cmod b <= M)%R -> (Cmod c <= M)%R ->
@@ -94,7 +112,7 @@ Check quadratic_q0_backward : forall (eps : R) (O : RoundOps) (a b c : C),
   (q <> RtoC 0 -> exists r0 r1 d : C, poly_solve (RoundRAo eps O) [c; b; a] false = Ok ([r0; r1], []) /\
                    (Cmod d <= 2 * eps + eps * eps)%R /\ (r0 * r1)%C = (c / a * (RtoC 1 + d))%C).
 Print Assumptions quadratic_q0_backward.
-(* non-vacuity of the five theorems above: eps = 1/1024 is admissible and [pert_ops (1/1024)] (every rounded operation returns
+(* non-vacuity of the six theorems above: eps = 1/1024 is admissible and [pert_ops (1/1024)] (every rounded operation returns
    the exact result times 1 + 1/1024; Complex::sqrt = the principal square root times 1 + 1/1024) satisfies std_model and is
    really inexact: fl(1 * 1) <> 1 *)
 Example quadratic_backward_error_nonvacuous :
